@@ -960,7 +960,7 @@ func tamperPass(wp **world, out *JobOut, outcomes map[string]bool, addVio func(s
 	if job.Only != nil {
 		mine = []Alter{*job.Only}
 	}
-	out.Counts["tamper/"+wr.Kind+"/protected_bytes"] = size
+	out.Counts["size/tamper/"+wr.Name+"/"+job.Shape+"/protected_bytes"] = size
 	for _, a := range mine {
 		if a.Byte >= size {
 			continue
